@@ -11,11 +11,12 @@ import (
 // file set made only of `title`, comment and `include` lines: the titles in
 // reading order, or the first error with its position and include chain.
 type refResult struct {
-	Titles []string
-	Err    bool
-	Cls    int
-	Pos    posT
-	Chain  []posT
+	Inlined []string // the text with every include clause replaced by the lines of the file
+	Titles  []string
+	Err     bool
+	Cls     int
+	Pos     posT
+	Chain   []posT
 }
 
 // refExpand is the reference semantics: recursive textual inclusion, looking
@@ -50,8 +51,15 @@ func refExpand(in *input, isDir map[string]bool) refResult {
 		}
 		for i, l := range lines {
 			l = strings.TrimSpace(l)
+			raw := l
+			l = strings.TrimSpace(l)
+			if !strings.HasPrefix(l, "include ") {
+				res.Inlined = append(res.Inlined, raw)
+			}
 			switch {
 			case l == "" || strings.HasPrefix(l, "#"):
+			case l == "end" || strings.HasPrefix(l, "role ") || strings.HasPrefix(l, ":") || strings.HasPrefix(l, "parameter "):
+				// section structure of the few shapes that have one: no title, no include
 			case strings.HasPrefix(l, "title "):
 				res.Titles = append(res.Titles, strings.TrimSpace(strings.TrimPrefix(l, "title ")))
 			case strings.HasPrefix(l, "include "):
@@ -183,6 +191,23 @@ func graphCase(rng *rand.Rand, shape string) *input {
 		in.Files["conf/x.cfg"] = titled("confx", "")
 		in.Files["lib/x.cfg"] = titled("libx", "")
 		in.Files["x.cfg"] = titled("rootx", "")
+	case "shadow-sibling-listed":
+		// the including file's own directory is ALSO one of the -I directories,
+		// listed after another one that has the name: it is still searched first
+		if rng.Intn(2) == 0 {
+			in.IP = []string{"lib", ""}
+			in.Files["m.cfg"] = titled("m", "", "include x.cfg", "")
+			in.Files["x.cfg"] = titled("rootx", "")
+			in.Files["lib/x.cfg"] = titled("libx", "")
+		} else {
+			in.IP = []string{"lib", "conf", ""}
+			in.Main = "conf/m.cfg"
+			in.Files["conf/m.cfg"] = titled("m", "include sub/a.cfg", "include x.cfg")
+			in.Files["conf/sub/a.cfg"] = titled("a", "", "include ../x.cfg")
+			in.Files["conf/x.cfg"] = titled("confx", "")
+			in.Files["lib/x.cfg"] = titled("libx", "")
+			in.Files["x.cfg"] = titled("rootx", "")
+		}
 	case "shadow-order":
 		// no sibling: the first -I directory that has it wins
 		in.IP = []string{"lib", "lib2", ""}
@@ -212,6 +237,18 @@ func graphCase(rng *rand.Rand, shape string) *input {
 		in.Files["m.cfg"] = "title m.0\ninclude a.cfg\ntitle m.2"
 		in.Files["a.cfg"] = "title a.0\ninclude b.cfg"
 		in.Files["b.cfg"] = "# nothing"
+	case "nonl-title":
+		// the included file ends with a clause and no newline
+		in.Files["m.cfg"] = "title m.0\ninclude a.cfg\ntitle m.2\n"
+		in.Files["a.cfg"] = "title a.0\ntitle a.1"
+	case "nonl-end":
+		// the included file ends with `end` and no newline: the section must be closed
+		in.Files["m.cfg"] = "title m.0\nrole r\ninclude body.cfg\ntitle m.3\n"
+		in.Files["body.cfg"] = "  :a true\nend"
+	case "nonl-nested":
+		in.Files["m.cfg"] = "include a.cfg\ntitle m.1"
+		in.Files["a.cfg"] = "title a.0\ninclude b.cfg\n  title a.2"
+		in.Files["b.cfg"] = "role r\n:x true\nend\ntitle b.3"
 	case "empty-files":
 		in.Files["m.cfg"] = "include a.cfg\ninclude a.cfg\ntitle m.2\n"
 		in.Files["a.cfg"] = ""
@@ -266,10 +303,18 @@ func graphCase(rng *rand.Rand, shape string) *input {
 			in.Files[f] = titled(strings.ReplaceAll(f, "/", "_"), body...)
 		}
 	}
+	// any file may lack its final newline
+	if shape != "no-final-newline" {
+		for _, n := range sortedNames(in.Files) {
+			if rng.Intn(3) == 0 {
+				in.Files[n] = strings.TrimSuffix(in.Files[n], "\n")
+			}
+		}
+	}
 	return in
 }
 
-var graphShapes = []string{"chain", "chain", "chain", "diamond", "self", "mutual", "cycle3", "directory", "directory-nested", "missing",
+var graphShapes = []string{"shadow-sibling-listed", "nonl-title", "nonl-end", "nonl-nested", "chain", "chain", "chain", "diamond", "self", "mutual", "cycle3", "directory", "directory-nested", "missing",
 	"only-I", "shadow-sibling", "shadow-order", "sibling-of-includer", "dotdot", "no-final-newline", "empty-files", "random", "random", "random", "random"}
 
 // escapesRoot says whether some include name of the file set could climb
